@@ -125,3 +125,8 @@ def sender_and_receiver_feed_the_same_inputs(tx, rx, frame):
     assert key2 == key and scf2 is scf and addr2 == addr and at2 == at and ff2 == ff and tpci2 is tpci
     assert plain.payload.to_knx() == apdu
     assert plain.src_addr == frame.src_addr and plain.dst_addr == frame.dst_addr and plain.tpci is frame.tpci
+
+
+ASSUMPTIONS = [
+    "ideal-cipher model of AES-CBC-MAC / AES-CTR (contracts/crypto_model.py): no MAC collisions (also not on 32 transmitted bits), CTR decryption inverse to encryption under the same key and counter block and unrelated otherwise; 2^-32 / 2^-128 events treated as impossible",
+]
